@@ -121,7 +121,7 @@ P = D.DesignProperty(
     rule=("case = generated design spec plus one planted table defect (overlap / gap / none) at a Hypothesis-drawn window input of one "
           "derived factor; non-trivial = a defect is planted on a factor of the design, or (plant none) at least one sequence was returned "
           "for a design with derived factors; distinct = distinct spec JSON"),
-    cfg_quick=CFG, n_quick=70, n_thorough=800, case_limit=(15, 90), strategy=planted,
+    cfg_quick=CFG, n_quick=70, n_thorough=500, case_limit=(15, 90), strategy=planted,
     limits={"max_T": {"quick": 8, "thorough": 12}},
     assumptions=["a planted input is a tuple of existing level names of the argument factors; None-padded inputs of early starts are excluded with finding F12"])
 P.export(globals())
